@@ -53,7 +53,7 @@ def run(chk):
 META = {
     "category": "other",
     "engine": "LABEL (symbolic interpreter on symbolic trees)",
-    "technique": "abstract interpretation of the builder / label producers / constructors on symbolic trees and symbolic term tables (column identities, axis identities); finite enumeration of list lengths for the constructors",
+    "technique": "abstract interpretation of the builder / label producers / constructors on symbolic trees and symbolic term tables (column identities, axis identities); whole-function interpretation of _decompose_graph on exact r x 1 tables (root case); finite enumeration of list lengths for the constructors",
     "text": "Decides, for the enumerated symbolic topologies (arity 0-3, several basis sets per node, nested sub-trees), that the builder's "
             "column bookkeeping, the numeric axis layout, the operator's label schema, the traversal pairing and todense are mutually "
             "consistent, and (bounded, list length <= N) that tree constructors neither drop nor duplicate a basis set. Exactness of the "
